@@ -14,5 +14,21 @@ for mp in sorted(glob.glob("/verif/seeded/*/meta.json")):
     c = m.setdefault("confirmed_by_me", {})
     c["done"] = done
     c["result"] = (summ[-1] + "; " + stab[-1]) if done else "queued (see confirm.log when present)"
+    flips = [l.split("NOT PASSING:")[1].strip() for l in L if "NOT PASSING:" in l]
+    flips = [t for t in flips if not any(k in t for k in ("test_myhypot_xla_client", "test_myhypot_cpp", "test_safe_min_xla_client"))]
+    # order-dependent on the unmodified tree as well: test_multiply_dekker / test_square_dekker set mpmath.mp.prec globally and never
+    # restore it, so this test fails when the float16 variant ran before it on the same xdist worker
+    flaky = [t for t in flips if "test_fma_samples_fraction[float32]" in t]
+    flips = [t for t in flips if t not in flaky]
+    if flaky:
+        c["flaky_test_seen"] = flaky[0] + " (fails intermittently on the unmodified tree too: global mpmath precision leaked by an earlier test on the same worker)"
+    else:
+        c.pop("flaky_test_seen", None)
+    if flips:
+        c["tests_no_longer_passing"] = flips
+        c["note"] = "pytest still exits 0: these tests call pytest.xfail() on inaccurate results, so they turn from passed to xfailed with the change"
+    else:
+        c.pop("tests_no_longer_passing", None)
+        c.pop("note", None)
     json.dump(m, open(mp, "w"), indent=1)
     print(os.path.basename(d), done)
